@@ -155,7 +155,8 @@ class DeclModel:
             lo, hi = -1e-9, 1 + 1e-9
             if eta < lo or eta > hi:
                 return ('reject', 'ValueError')
-            if eta < 1e-9 or eta > 1 - 1e-9:
+            if (eta < 1e-9 or eta > 1 - 1e-9) and d['f'] != 0:
+                # (with zero friction the efficiency is exactly 1)
                 return ('undecided', None)
             return ('accept', None)
         raise AssertionError(op)
